@@ -217,19 +217,24 @@ def _acyclic(ctx, p, L, r_acyc, r_range):
                 why = 'the cost test accepts relation %s (must be strictly less: equal-cost re-parenting can close a cycle)' % sorted(r)
                 continue
             good = True
+            sfs = [c_['state_field'] for c_ in p['containers'].values()]
             for xn in x:
-                if xn[0] != 'call' or ctx.core.body(xn[1]) is None:
+                child = parent = None
+                if xn[0] == 'call' and ctx.core.body(xn[1]) is not None:
+                    args = xn[2]
+                    # find (child, parent) node arguments: container elements
+                    nodes = [a_ for a_ in args if a_ and all(m[0] == 'index' for m in a_)]
+                    if len(nodes) == 2:
+                        child, parent = nodes[0], nodes[1]
+                if child is None:
+                    # the cost expression written inline, or through a helper that takes states and the parent's cost
+                    pairs = P.cost_pairs(ctx, p, T(xn), cf, sfs[0]) if sfs else None
+                    if pairs and len(pairs) == 1:
+                        child, parent = pairs[0]
+                if child is None:
                     good = False
-                    why = 'the compared value %s is not produced by the planner\'s cost function' % fmt_terms(T(xn))[:60]
+                    why = 'the compared value %s is not cost(node, new parent) = parent.%s + distance(node, parent)' % (fmt_terms(T(xn))[:60], cf)
                     break
-                args = xn[2]
-                # find (child, parent) node arguments: container elements
-                nodes = [a_ for a_ in args if a_ and all(m[0] == 'index' for m in a_)]
-                if len(nodes) != 2:
-                    good = False
-                    why = 'cost function is not applied to two tree nodes'
-                    break
-                child, parent = nodes[0], nodes[1]
                 exp_child = T(('index', cont, J))
                 parents_ok = all(any(child == exp_child and parent == T(('index', cont, idx)) for (_db, idx) in L['defs']) for _ in [0])
                 if not parents_ok:
